@@ -144,6 +144,7 @@ type cspec struct {
 	pat     *seg
 	pre     []string
 	spaceOp bool
+	rangeHi *cspec // not nil: this item is the hyphen range "<this version> - <rangeHi version>" (the operator is unused)
 }
 
 var opTexts = []string{"", "=", "!=", ">", "<", ">=", "=>", "<=", "=<", "~", "~>", "^"}
@@ -191,6 +192,11 @@ func (s seg) coq() string {
 }
 
 func (c cspec) text() string {
+	if c.rangeHi != nil {
+		lo, hi := c, *c.rangeHi
+		lo.rangeHi, lo.opTxt, lo.spaceOp, hi.opTxt, hi.spaceOp = nil, "", false, "", false
+		return lo.text() + " - " + hi.text()
+	}
 	s := c.opTxt
 	if c.spaceOp {
 		s += " "
@@ -208,7 +214,41 @@ func (c cspec) text() string {
 	return s
 }
 
+// the item as NewConstraint sees it after rewriteRange (a range is two comparisons)
 func (c cspec) coq() string {
+	if c.rangeHi != nil {
+		lo, hi := c, *c.rangeHi
+		lo.rangeHi, lo.opTxt, hi.opTxt = nil, ">=", "<="
+		return lo.coq() + "; " + hi.coq()
+	}
+	return c.coq1()
+}
+
+// the item as written: CI comparison | CR lo hi
+func (c cspec) coqSrc() string {
+	if c.rangeHi != nil {
+		return fmt.Sprintf("(CR %s %s)", c.vspecCoq(), c.rangeHi.vspecCoq())
+	}
+	return "(CI " + c.coq1() + ")"
+}
+
+func (c cspec) restCoq() string {
+	rest := "None"
+	if c.min != nil {
+		p := "None"
+		if c.pat != nil {
+			p = "(Some " + c.pat.coq() + ")"
+		}
+		rest = fmt.Sprintf("(Some (%s, %s))", c.min.coq(), p)
+	}
+	return rest
+}
+
+func (c cspec) vspecCoq() string {
+	return fmt.Sprintf("(mkVS %s %s %s)", c.maj.coq(), c.restCoq(), coqStrs(c.pre))
+}
+
+func (c cspec) coq1() string {
 	rest := "None"
 	if c.min != nil {
 		p := "None"
@@ -235,7 +275,12 @@ func genConstraints(r *lib.Rng, around ver) constraints {
 		}
 		var ands []cspec
 		for j := 0; j < nAnd; j++ {
-			ands = append(ands, genCspec(r, nearVer(r, around)))
+			c := genCspec(r, nearVer(r, around))
+			if r.Chance(1, 5) { // a hyphen range around the version
+				hi := genCspec(r, nearVer(r, around))
+				c.rangeHi = &hi
+			}
+			ands = append(ands, c)
 		}
 		cs = append(cs, ands)
 	}
@@ -252,6 +297,29 @@ func (cs constraints) text() string {
 		ors = append(ors, strings.Join(as, ", "))
 	}
 	return strings.Join(ors, " || ")
+}
+
+func (cs constraints) hasRange() bool {
+	for _, ands := range cs {
+		for _, c := range ands {
+			if c.rangeHi != nil {
+				return true
+			}
+		}
+	}
+	return false
+}
+
+func (cs constraints) coqSrc() string {
+	var ors []string
+	for _, ands := range cs {
+		var as []string
+		for _, c := range ands {
+			as = append(as, c.coqSrc())
+		}
+		ors = append(ors, lib.CoqList(as))
+	}
+	return lib.CoqList(ors)
 }
 
 func (cs constraints) coq() string {
@@ -594,7 +662,12 @@ func run(f lib.Flags, scratch string) error {
 		}
 		pv := semver.MustParse(v.String())
 		ok := c.Check(pv)
-		cf.Add(fmt.Sprintf("KCheck %s %s %s", cs.coq(), obsOf(pv), lib.CoqBool(ok)),
+		kcase := fmt.Sprintf("KCheck %s %s %s", cs.coq(), obsOf(pv), lib.CoqBool(ok))
+		if cs.hasRange() {
+			kcase = fmt.Sprintf("KCheckR %s %s %s", cs.coqSrc(), obsOf(pv), lib.CoqBool(ok))
+			cf.Count("check_with_hyphen_range")
+		}
+		cf.Add(kcase,
 			map[string]interface{}{"kind": "check", "constraint": text, "version": v.String(), "check": ok}, true)
 		cf.Count(fmt.Sprintf("check_%v", ok))
 		for _, ands := range cs {
